@@ -16,14 +16,6 @@ PID = 'C31'
 SHORT = 'translate'
 
 ENV = '''
-#[derive(Debug, Clone, Copy, PartialEq, Eq, Structural)]
-pub struct StatusCode { pub bits: u32 }
-impl StatusCode {
-    pub const BadNodeIdUnknown: StatusCode = StatusCode { bits: 0x8034_0000 };
-    pub const BadNothingToDo: StatusCode = StatusCode { bits: 0x800F_0000 };
-    pub const BadBrowseNameInvalid: StatusCode = StatusCode { bits: 0x8060_0000 };
-    pub const BadNoMatch: StatusCode = StatusCode { bits: 0x806F_0000 };
-}
 #[derive(PartialEq, Eq, Structural)]
 pub struct NodeId { pub namespace: u16, pub identifier: u64 }
 impl Clone for NodeId {
@@ -303,6 +295,7 @@ def build(manifest):
     a = Asm()
     a.add('use vstd::prelude::*;\nverus! {\nglobal size_of usize == 8;\n', 'prelude', 'env')
     a.add(norm_vis(types), 'types', 'env')
+    a.add(status_code_struct(manifest), 'status codes', 'env')      # every status code of the real file (D14)
     a.add(ENV, 'env', 'env')
     a.add(f['follow_relative_path'], 'follow_relative_path', 'fn')
     a.add(f['find_nodes_relative_path'], 'find_nodes_relative_path', 'fn')
